@@ -1340,6 +1340,41 @@ func (in *Interp) builtin(b *ssa.Builtin, args []Value, cc *ssa.CallCommon, site
 		}
 	case "print", "println":
 		return nil
+	case "SliceData":
+		s := args[0].(SliceV)
+		if s.O == nil {
+			return Pointer{}
+		}
+		return Pointer{O: s.O, Idx: s.Off}
+	case "StringData":
+		s := args[0].(StrV)
+		if s.O == nil {
+			if s.C == "" {
+				return Pointer{}
+			}
+			s = in.strObj(s)
+		}
+		return Pointer{O: s.O, Idx: s.Off}
+	case "String", "Slice":
+		p := args[0].(Pointer)
+		n := in.to64(args[1].(*Term), cc.Args[1].Type())
+		var off *Term
+		switch {
+		case p.O == nil:
+			if b.Name() == "String" {
+				return StrV{}
+			}
+			z := ts.Const(64, 0)
+			return SliceV{nil, z, z, z}
+		case p.P != nil:
+			off = ts.Const(64, uint64(p.K))
+		default:
+			off = p.Idx
+		}
+		if b.Name() == "String" {
+			return StrV{O: p.O, Off: off, Len: n}
+		}
+		return SliceV{p.O, off, n, n}
 	case "ssa:wrapnilchk":
 		p, ok := args[0].(Pointer)
 		if ok && p.IsNil() {
